@@ -174,6 +174,12 @@ def reset_insert(reset):
     (b, dbfile) or (b, dbfile, True): the checkpoint was forced by file growth (_onresize logs a RESIZE record first:
     SEP RESIZE, then SEP RESET) - the only way a RESIZE record can be FOLLOWED by savepoints in a log; the resize is to
     the size the main file already has at that point"""
+    if len(reset) > 3 and reset[3]:
+        # the mark's segment header on a page boundary: a segment in front of it (skipped by a replay that restarts at the
+        # mark) holding one WRITE record with a zero payload of the length that is missing
+        n = (-(reset[0] + 32)) % 4096
+        return (bytes([127, 0, 0, 0, 0, 0, 0, 0]) + (20 + n).to_bytes(4, "little") + bytes([3, 0, 0, 0, 0, 0, 0, 0]) + n.to_bytes(4, "little")
+                + (0).to_bytes(8, "little") + bytes(n) + RESET_MARK)
     if len(reset) > 2 and reset[2]:
         sz = os.path.getsize(reset[1])
         return (bytes([127, 0, 0, 0, 0, 0, 0, 0, 20, 0, 0, 0, 4, 0, 0, 0]) + sz.to_bytes(8, "little") + sz.to_bytes(8, "little")
@@ -599,6 +605,27 @@ def do_history(run, impl, model, wd, name, crc, ops, ncut, nflip, corpus_cases=N
                                           "log with a RESIZE record and a reset mark at %d (growth during an online backup): %s" % (b, why))
                 if cls != "growth-checkpoint":
                     image_case(run, impl, model, wd, hist, wal, b, os.path.join(pre, "db"))
+            # --- the reset mark on a page boundary: _rollforward_exl advances its mapping pointer to the mark and hands THAT
+            # pointer to munmap - with an aligned mark the call succeeds and takes away the pages behind the log mapping
+            h4 = dict(hist, reset=(b, os.path.join(pre, "db"), False, True))
+            for r in eval_cases(run, impl, model, wd, h4, [(len(wal), [])] + [(c, []) for c in sorted(pts[:nreset])[::20][:3]], "y%d" % b):
+                run.dist("case_reset_mark_on_page_boundary")
+                run.case("%s|%d|aligned-reset%d|%s" % (" ".join(ops), crc, b, r["cut"]), nontrivial=True)
+                t2 = t2_compare(r, crc)
+                if t2 and t2 != "skip":
+                    run.broken.append("T2 correspondence: %s page-aligned reset@%d cut=%d crc=%d: %s" % (name, b, r["cut"], crc, t2)) if len(run.broken) < 8 else None
+                else:
+                    run.cov["traces_validated_against_impl"] += 1
+                ok, why, allowed = oracle_cut(hist, r)
+                if not ok:
+                    run.cov.setdefault("violations_by_class", {})
+                    run.cov["violations_by_class"]["wal-mapping-leak"] = run.cov["violations_by_class"].get("wal-mapping-leak", 0) + 1
+                    if run.cov["violations_by_class"]["wal-mapping-leak"] <= 2:
+                        run.violation({"ops": ops, "crc": crc, "cut": r["cut"], "flips": [], "reset_at": b, "align_mark": True,
+                                       "class": "wal-mapping-leak", "impl": r["impl_rec"][:2000], "impl_recovery_step": r["impl_wal"][:200],
+                                       "allowed": allowed, "savepoint_ends": [e for e, _ in sps], "base_class": cls},
+                                      "log with a reset mark whose segment header lies on a page boundary (offset %d): %s" % (
+                                          b + len(reset_insert(h4["reset"])) - 16, why))
             shutil.rmtree(pre, ignore_errors=True)
     shutil.rmtree(d, ignore_errors=True)
 
@@ -703,7 +730,7 @@ def replay(run, path):
             shutil.copyfile(os.path.join(d, "db"), os.path.join(pre, "db"))
             open(os.path.join(pre, "db-wal"), "wb").write(open(os.path.join(d, "db-wal"), "rb").read()[:b])
             vlib.run_lines(impl, "wal %s %d\n" % (pre, r["crc"]))
-            hist["reset"] = (b, os.path.join(pre, "db"), bool(r.get("resize_before_mark")))
+            hist["reset"] = (b, os.path.join(pre, "db"), bool(r.get("resize_before_mark")), bool(r.get("align_mark")))
             print("reset mark (%sSEP+RESET) inserted at log offset" % ("SEP+RESIZE, " if r.get("resize_before_mark") else ""), b,
                   "; main file = recovery of the first", b, "bytes")
             if r.get("image"):
